@@ -337,6 +337,14 @@ func c07Observe(text string, names []string, st *facts.State, more ...*facts.Sta
 	return out, nil
 }
 
+// c07Exact makes an integer expression int64 (see gen: e + 0 is int64 for every integer kind).
+func c07Exact(e gast.Expr, inf gen.IntInfo) gast.Expr {
+	if inf.Exact {
+		return e
+	}
+	return &gast.Paren{X: &gast.Bin{Op: gast.OpAdd, L: e, R: gast.I(0)}}
+}
+
 func sinkEqual(a, b c07Outcome) bool {
 	if a.Match != b.Match || a.Has != b.Has {
 		return false
@@ -470,6 +478,18 @@ func TestC07(t *testing.T) {
 			// make sure the argument-list siblings have something to work on
 			val = &gast.Call{Recv: gast.P("F"), Name: "Cat", Args: []gast.Expr{gast.S(rapid.SampledFrom([]string{"a", ",", "-", ""}).Draw(rt, "cat_sep")), gast.S("b"), gast.S("c")}}
 			vt = gast.TStr
+		}
+		if rapid.IntRange(0, 5).Draw(rt, "force_chain") == 0 {
+			// make sure the selector siblings on call results have something to work on: a member of the result of a
+			// call whose argument reads the facts
+			arg, ai := g.Int(1)
+			mk := &gast.Call{Recv: gast.P("F"), Name: "Mk", Args: []gast.Expr{g.NoBarePtr(c07Exact(arg, ai), false)}}
+			if rapid.Bool().Draw(rt, "force_chain_index") {
+				val = &gast.Index{X: &gast.Member{X: mk, Field: "Arr"}, Idx: gast.I(int64(rapid.IntRange(0, 2).Draw(rt, "force_chain_idx")))}
+			} else {
+				val = &gast.Member{X: mk, Field: "X"}
+			}
+			vt = gast.TInt
 		}
 		base := &c07Rule{Name: "Base", Cond: cond, Val: val, How: "base"}
 		rules := []*c07Rule{base}
